@@ -124,7 +124,15 @@ func checkC16(c *Ctx) {
 	// ---- R1 ----
 	nDo := 0
 	for _, fn := range p.FuncsInPkg("dispatcher") {
+		if fn.Parent() == nil {
+			// helpers of the package (the one that builds the request, say) are part of the sending function; the
+			// enforcing functions stay calls
+			fn = p.ViewKeeping(fn, func(callee *ssa.Function) bool { return pm.enforcing[callee] })
+		}
 		for _, do := range allCalls(fn, isDo) {
+			if len(p.InlinedFrom(do)) > 0 {
+				continue // decided in the view of the function the send belongs to
+			}
 			nDo++
 			key := "dispatcher." + fn.Name() + ":Client.Do"
 			calls := allCalls(fn, func(ci ssa.CallInstruction) bool {
@@ -246,8 +254,38 @@ func checkC16(c *Ctx) {
 	}
 
 	// ---- R3 ----
+	// the policy function(s): the outermost functions that deny (a helper that denies one clause is part of the
+	// function it is expanded into); helpers of the package are part of it, except boolean predicates (the
+	// address-class predicate, the rule matcher), which the clauses refer to by role
+	keepPred := func(callee *ssa.Function) bool {
+		rs := callee.Signature.Results()
+		return rs.Len() == 1 && types.Identical(rs.At(0).Type(), types.Typ[types.Bool])
+	}
+	views := map[*ssa.Function]*ssa.Function{}
 	for fn := range pm.base {
-		checkPolicyClauses(c, "C16.R3", fn)
+		views[fn] = p.ViewKeeping(fn, keepPred)
+	}
+	for _, fn := range sortedFuncs(pm.base) {
+		nested := false
+		for other, v := range views {
+			if other != fn && p.InlinedCallees(v)[fn] > 0 {
+				nested = true
+			}
+		}
+		if nested {
+			continue
+		}
+		// only functions that decide over a policy value
+		hasPolicy := false
+		for _, pr := range fn.Params {
+			if namedName(pr.Type()) == "EgressPolicy" {
+				hasPolicy = true
+			}
+		}
+		if !hasPolicy {
+			continue
+		}
+		checkPolicyClauses(c, "C16.R3", views[fn])
 	}
 	checkAddressClassPredicate(c, "C16.R3")
 	checkPolicyWiring(c, "C16.R4")
@@ -276,11 +314,33 @@ func checkPolicyClauses(c *Ctx, rule string, fn *ssa.Function) {
 	}
 	found := map[string]bool{}
 	policyFields := map[string]bool{}
+	// the names the function gives to its policy and URL parameters, and the address-class predicate (by signature)
+	polName, urlName, ipPred := "policy", "u", "isAllowedIP"
+	for _, pr := range fn.Params {
+		if namedName(pr.Type()) == "EgressPolicy" {
+			polName = pr.Name()
+		}
+		if pt, ok := pr.Type().(*types.Pointer); ok && namedName(pt.Elem()) == "URL" {
+			urlName = pr.Name()
+		}
+	}
+	for _, g := range p.FuncsInPkg("dispatcher") {
+		ps, rs := g.Signature.Params(), g.Signature.Results()
+		if ps.Len() == 1 && rs.Len() == 1 && ps.At(0).Type().String() == "net.IP" && types.Identical(rs.At(0).Type(), types.Typ[types.Bool]) {
+			ipPred = g.Name()
+		}
+	}
+	canon := func(sym string) string {
+		if strings.HasPrefix(sym, polName+".") {
+			return "policy." + strings.TrimPrefix(sym, polName+".")
+		}
+		return sym
+	}
 	for _, b := range fn.Blocks {
 		for _, ins := range b.Instrs {
 			if v, ok := ins.(ssa.Value); ok {
-				if sym, ok := symOf(v); ok && strings.HasPrefix(sym, "policy.") {
-					policyFields[strings.SplitN(strings.TrimPrefix(sym, "policy."), ".", 2)[0]] = true
+				if sym, ok := symOf(v); ok && strings.HasPrefix(canon(sym), "policy.") {
+					policyFields[strings.SplitN(strings.TrimPrefix(canon(sym), "policy."), ".", 2)[0]] = true
 				}
 			}
 		}
@@ -306,6 +366,8 @@ func checkPolicyClauses(c *Ctx, rule string, fn *ssa.Function) {
 			}
 		}
 		desc := pathDescribe(pa)
+		desc = strings.ReplaceAll(desc, urlName+"!=nil=false", "u==nil")
+		desc = strings.ReplaceAll(desc, polName+".", "policy.")
 		switch {
 		case strings.Contains(desc, "u==nil"):
 			found["nil-url"] = true
@@ -318,7 +380,7 @@ func checkPolicyClauses(c *Ctx, rule string, fn *ssa.Function) {
 				found["empty-host"] = true
 			}
 		}
-		if strings.Contains(desc, "DNSRebindProtection=true") && containsCallFalse(pa, "isAllowedIP", p) {
+		if strings.Contains(desc, "DNSRebindProtection=true") && containsCallFalse(pa, ipPred, p) {
 			found["disallowed-ip"] = true
 		}
 	}
@@ -329,7 +391,7 @@ func checkPolicyClauses(c *Ctx, rule string, fn *ssa.Function) {
 			return false
 		}
 		for _, a := range ci.Common().Args {
-			if sym, ok := symOf(a); ok && (sym == "policy.Deny" || sym == "policy.Allow") {
+			if sym, ok := symOf(a); ok && (canon(sym) == "policy.Deny" || canon(sym) == "policy.Allow") {
 				return true
 			}
 		}
@@ -337,6 +399,7 @@ func checkPolicyClauses(c *Ctx, rule string, fn *ssa.Function) {
 	}) {
 		for _, a := range ci.Common().Args {
 			sym, _ := symOf(a)
+			sym = canon(sym)
 			okE, failE, _ := GuardEdges(fn, []ssa.CallInstruction{ci}, BoolTrue)
 			if sym == "policy.Deny" {
 				denyCall = ci
